@@ -31,6 +31,29 @@
 //	once     that Write call accepts nothing and returns (0, error); later calls succeed
 //	         (a transient error: the bytes of the refused call are lost)
 //	close    every Write succeeds, Close returns an error
+//
+// With -errno epipe|enospc|eio|edquot|efbig the injected error is what the
+// operating system would hand back for a file: an *fs.PathError wrapping the
+// errno (errors.Is(err, syscall.EPIPE) holds, etc.) instead of a private value.
+//
+// Real descriptors (-target, default "stream" = the faulty stream above):
+//
+//	file    the writers get a real *os.File opened on the regular file -out
+//	tofile  the Write*ToFile function of the writer opens -out itself
+//	stdout  the Write*ToStdout function of the writer (the caller decides what
+//	        file descriptor 1 is: a regular file, a pipe)
+//	pipe    the writers get the write end of an os.Pipe whose reader (a goroutine)
+//	        consumes -k bytes, copies them to the standard output and closes its end
+//	fifo    same with a named pipe created at -out, opened by Write*ToFile
+//
+// -fsize N (N >= 0) sets RLIMIT_FSIZE of the process to N bytes before anything
+// is written (SIGXFSZ ignored): write(2) on a regular file fails with EFBIG once
+// the file holds N bytes, as it fails with ENOSPC on a full disk.
+//
+//	faultcmd -limitexec N command args...
+//
+// sets the same limit and replaces itself with the command (for the real
+// obitools4 commands).
 package main
 
 import (
@@ -38,11 +61,15 @@ import (
 	"errors"
 	"flag"
 	"fmt"
+	"io"
+	"io/fs"
 	"os"
+	"os/signal"
 	"runtime"
 	"strconv"
 	"strings"
 	"sync"
+	"syscall"
 
 	log "github.com/sirupsen/logrus"
 
@@ -51,8 +78,51 @@ import (
 	"git.metabarcoding.org/obitools/obitools4/obitools4/pkg/obiseq"
 )
 
-var errInjected = errors.New("faultcmd: injected output failure (no space left on device)")
-var errClose = errors.New("faultcmd: injected failure of Close")
+var errInjected error = errors.New("faultcmd: injected output failure (no space left on device)")
+var errClose error = errors.New("faultcmd: injected failure of Close")
+
+var errnos = map[string]syscall.Errno{
+	"epipe":  syscall.EPIPE,
+	"enospc": syscall.ENOSPC,
+	"eio":    syscall.EIO,
+	"edquot": syscall.EDQUOT,
+	"efbig":  syscall.EFBIG,
+}
+
+// limitFileSize makes write(2) on regular files fail with EFBIG beyond n bytes.
+func limitFileSize(n int64) error {
+	signal.Ignore(syscall.SIGXFSZ)
+	lim := syscall.Rlimit{Cur: uint64(n), Max: uint64(n)}
+	return syscall.Setrlimit(syscall.RLIMIT_FSIZE, &lim)
+}
+
+const fSetPipeSz, fGetPipeSz = 1031, 1032
+
+// setPipeCap asks for a pipe capacity and returns the one obtained (0 = unknown).
+func setPipeCap(f *os.File, want int) int {
+	if want > 0 {
+		syscall.Syscall(syscall.SYS_FCNTL, f.Fd(), fSetPipeSz, uintptr(want))
+	}
+	sz, _, errno := syscall.Syscall(syscall.SYS_FCNTL, f.Fd(), fGetPipeSz, 0)
+	if errno != 0 {
+		return 0
+	}
+	return int(sz)
+}
+
+// reader is the consumer of a real pipe: it copies what it reads to the standard
+// output, leaves (closes its end) once it has taken k bytes, or reads up to the
+// end of the stream when the stream is shorter.
+func reader(r *os.File, k int64, start <-chan struct{}, done chan<- struct{}) {
+	defer close(done)
+	// a reader of a named pipe that leaves before the writer has opened its end
+	// makes that open wait for ever: it starts once the library holds its end
+	<-start
+	n, err := io.CopyN(os.Stdout, r, k)
+	early := err == nil // k bytes taken; otherwise the stream ended first
+	r.Close()
+	fmt.Fprintf(os.Stderr, "FAULTCMD reader received=%d left_after_k=%v\n", n, early)
+}
 
 // stream is the faulty io.WriteCloser.
 type stream struct {
@@ -217,7 +287,50 @@ func main() {
 	fault := flag.String("fault", "none", "none|short|erronly|once|close")
 	k := flag.Int64("k", 0, "byte offset of the fault")
 	trace := flag.Bool("trace", false, "describe every Write call of the stream on stderr")
+	errnoArg := flag.String("errno", "", "epipe|enospc|eio|edquot|efbig: the injected error is an *fs.PathError wrapping this errno")
+	target := flag.String("target", "stream", "stream|file|tofile|stdout|pipe|fifo")
+	outPath := flag.String("out", "", "path of the output (targets file, tofile, fifo)")
+	fsize := flag.Int64("fsize", -1, "RLIMIT_FSIZE in bytes (-1 = unchanged)")
+	pipeCap := flag.Int("pipecap", 0, "requested capacity of the pipe (targets pipe, fifo)")
+
+	if len(os.Args) > 3 && os.Args[1] == "-limitexec" {
+		n, err := strconv.ParseInt(os.Args[2], 10, 64)
+		if err != nil || n < 0 {
+			usage("limitexec: bad limit %q", os.Args[2])
+		}
+		if err := limitFileSize(n); err != nil {
+			usage("limitexec: setrlimit: %v", err)
+		}
+		err = syscall.Exec(os.Args[3], os.Args[3:], os.Environ())
+		usage("limitexec: exec %s: %v", os.Args[3], err)
+	}
 	flag.Parse()
+
+	if *errnoArg != "" {
+		e, ok := errnos[*errnoArg]
+		if !ok {
+			usage("unknown errno %q", *errnoArg)
+		}
+		errInjected = &fs.PathError{Op: "write", Path: "/faultcmd/injected.out", Err: e}
+		errClose = &fs.PathError{Op: "close", Path: "/faultcmd/injected.out", Err: e}
+	}
+	switch *target {
+	case "stream", "stdout", "pipe":
+	case "file", "tofile", "fifo":
+		if *outPath == "" {
+			usage("target %s needs -out", *target)
+		}
+	default:
+		usage("unknown target %q", *target)
+	}
+	if *target != "stream" && *fault != "none" {
+		usage("injected faults need the target stream")
+	}
+	if *fsize >= 0 {
+		if err := limitFileSize(*fsize); err != nil {
+			usage("setrlimit: %v", err)
+		}
+	}
 
 	sizes, err := ints(*sizesArg)
 	if err != nil {
@@ -276,28 +389,125 @@ func main() {
 		opts = append(opts, obiformats.OptionDontCloseFile())
 	}
 
+	// the destination
+	var dst io.WriteCloser = out
+	var ownEnd *os.File    // real descriptor to close at the end when the library does not (-close not given)
+	var keepAlive *os.File // fifo: a second writer, so that the reader does not meet an end of file before the library has opened the fifo
+	var readerDone chan struct{}
+	readerStart := make(chan struct{})
+	byName := false
+	switch *target {
+	case "file":
+		f, err := os.OpenFile(*outPath, os.O_WRONLY|os.O_CREATE|os.O_TRUNC, 0o644)
+		if err != nil {
+			usage("open %s: %v", *outPath, err)
+		}
+		dst, ownEnd = f, f
+	case "tofile":
+		byName = true
+	case "stdout":
+		dst = nil
+	case "pipe":
+		pr, pw, err := os.Pipe()
+		if err != nil {
+			usage("pipe: %v", err)
+		}
+		out.say("pipecap=%d", setPipeCap(pw, *pipeCap))
+		readerDone = make(chan struct{})
+		close(readerStart)
+		go reader(pr, *k, readerStart, readerDone)
+		dst, ownEnd = pw, pw
+	case "fifo":
+		if err := syscall.Mkfifo(*outPath, 0o600); err != nil {
+			usage("mkfifo %s: %v", *outPath, err)
+		}
+		pr, err := os.OpenFile(*outPath, os.O_RDONLY|syscall.O_NONBLOCK, 0)
+		if err != nil {
+			usage("open fifo for reading: %v", err)
+		}
+		keepAlive, err = os.OpenFile(*outPath, os.O_WRONLY|syscall.O_NONBLOCK, 0)
+		if err != nil {
+			usage("open fifo (second writer): %v", err)
+		}
+		out.say("pipecap=%d", setPipeCap(pr, *pipeCap))
+		readerDone = make(chan struct{})
+		go reader(pr, *k, readerStart, readerDone)
+		byName = true
+	}
+
 	var it obiiter.IBioSequence
-	switch *writer {
-	case "fasta":
-		it, err = obiformats.WriteFasta(src, out, opts...)
-	case "fastq":
-		it, err = obiformats.WriteFastq(src, out, opts...)
-	case "json":
-		it, err = obiformats.WriteJSON(src, out, opts...)
-	case "csv":
+	if *writer == "csv" {
 		opts = append(opts, obiformats.CSVId(true), obiformats.CSVSequence(true), obiformats.CSVKey("batch"))
-		it, err = obiformats.WriteCSV(src, out, opts...)
+	}
+	switch {
+	case byName:
+		// Write*ToFile opens the file and asks for it to be closed
+		switch *writer {
+		case "fasta":
+			it, err = obiformats.WriteFastaToFile(src, *outPath, opts...)
+		case "fastq":
+			it, err = obiformats.WriteFastqToFile(src, *outPath, opts...)
+		case "json":
+			it, err = obiformats.WriteJSONToFile(src, *outPath, opts...)
+		case "csv":
+			it, err = obiformats.WriteCSVToFile(src, *outPath, opts...)
+		default:
+			usage("unknown writer %q", *writer)
+		}
+	case dst == nil:
+		// Write*ToStdout decides itself whether the descriptor is closed; the
+		// CloseFile option given above comes first and is overridden
+		switch *writer {
+		case "fasta":
+			it, err = obiformats.WriteFastaToStdout(src, opts...)
+		case "fastq":
+			it, err = obiformats.WriteFastqToStdout(src, opts...)
+		case "json":
+			it, err = obiformats.WriteJSONToStdout(src, opts...)
+		case "csv":
+			it, err = obiformats.WriteCSVToStdout(src, opts...)
+		default:
+			usage("unknown writer %q", *writer)
+		}
 	default:
-		usage("unknown writer %q", *writer)
+		switch *writer {
+		case "fasta":
+			it, err = obiformats.WriteFasta(src, dst, opts...)
+		case "fastq":
+			it, err = obiformats.WriteFastq(src, dst, opts...)
+		case "json":
+			it, err = obiformats.WriteJSON(src, dst, opts...)
+		case "csv":
+			it, err = obiformats.WriteCSV(src, dst, opts...)
+		default:
+			usage("unknown writer %q", *writer)
+		}
 	}
 	if err != nil {
 		// what CLIWriteBioSequences does
 		log.Fatalf("Write file error: %v", err)
 	}
+	if *target == "fifo" {
+		close(readerStart) // Write*ToFile has opened the named pipe
+	}
 
 	it.Recycle()
 
 	obiiter.WaitForLastPipe()
+
+	// what the end of the process does to the descriptors the library was asked
+	// to leave open; an error here is an error nobody can report any more and is
+	// not part of the case (the file targets are only used with data flushed by
+	// the library: a regular file has no buffer of its own)
+	if ownEnd != nil && !*closeFile {
+		ownEnd.Close()
+	}
+	if keepAlive != nil {
+		keepAlive.Close()
+	}
+	if readerDone != nil {
+		<-readerDone
+	}
 
 	out.mu.Lock()
 	out.say("done accepted=%d offered=%d hits=%d closes=%d", out.accepted, out.offered, out.hits, out.closes)
